@@ -376,11 +376,11 @@ func runGBCase(c gbCase, bin, tmp string, t *testing.T) map[string]interface{} {
 		}
 	}
 	out["listener_before_ack"] = order
-	if c.Pair == "inproc" && !c.Mux {
-		// the event log of a plain in-process pair is validated against GRPCPlainImpl.tla
+	if c.Pair == "inproc" {
+		// the event log of an in-process pair is validated against GRPCPlainImpl.tla / GRPCMuxImpl
 		var tr []map[string]interface{}
 		for _, e := range evs {
-			if !strings.HasPrefix(e.Ev, "grpc.") && !strings.HasPrefix(e.Ev, "call.") && !strings.HasPrefix(e.Ev, "ret.") {
+			if e.Ev == "grpc.stream.send" || strings.HasPrefix(e.Ev, "stdio.") {
 				continue
 			}
 			m := map[string]interface{}{"seq": e.Seq, "ev": e.Ev, "obj": e.Obj, "a": e.A, "b": e.B, "g": e.G, "t": e.T}
